@@ -579,11 +579,11 @@ class C13(v_hyp.Spec):
         if lines and lines[-1] == "":
             lines.pop()
         mk = lambda ls: {"src": "\n".join(ls) + "\n", "cls": item.get("cls", [])}
-        lines = v_hyp.ddmin(lines, lambda ls: fails(mk(ls)), budget=200)
-        for k in range(min(len(lines), 12)):
+        lines = v_hyp.ddmin(lines, lambda ls: fails(mk(ls)), budget=150)
+        for k in range(min(len(lines), 8)):
             toks = lines[k].split(" ")
             if len(toks) > 2:
-                keep = v_hyp.ddmin(toks, lambda ts: fails(mk(lines[:k] + [" ".join(ts)] + lines[k + 1:])), budget=40)
+                keep = v_hyp.ddmin(toks, lambda ts: fails(mk(lines[:k] + [" ".join(ts)] + lines[k + 1:])), budget=30)
                 lines[k] = " ".join(keep)
         return mk(lines)
 
